@@ -136,10 +136,19 @@ func (cb *CircuitBreaker) transitionToOpen() {
 }
 
 func (cb *CircuitBreaker) transitionToHalfOpen() {
-	cb.state.Store(int32(CircuitHalfOpen))
+	// Callers racing on an expired open breaker must not each reset the probe
+	// counter, or more than HalfOpenRequests of them would be admitted.
+	cb.mu.Lock()
+	defer cb.mu.Unlock()
+
+	if CircuitBreakerState(cb.state.Load()) != CircuitOpen {
+		return
+	}
+
 	cb.failures.Store(0)
 	cb.successes.Store(0)
 	cb.halfOpenRequests.Store(0)
+	cb.state.Store(int32(CircuitHalfOpen))
 }
 
 func (cb *CircuitBreaker) transitionToClosed() {
